@@ -2559,6 +2559,11 @@ var g = &grammar{
 										alternatives: []interface{}{
 											&litMatcher{
 												pos:        position{line: 525, col: 19, offset: 16261},
+												val:        "\\\\",
+												ignoreCase: false,
+											},
+											&litMatcher{
+												pos:        position{line: 525, col: 19, offset: 16261},
 												val:        "\\\"",
 												ignoreCase: false,
 											},
@@ -2592,6 +2597,11 @@ var g = &grammar{
 									expr: &choiceExpr{
 										pos: position{line: 525, col: 47, offset: 16289},
 										alternatives: []interface{}{
+											&litMatcher{
+												pos:        position{line: 525, col: 47, offset: 16289},
+												val:        "\\\\",
+												ignoreCase: false,
+											},
 											&litMatcher{
 												pos:        position{line: 525, col: 47, offset: 16289},
 												val:        "\\'",
